@@ -31,6 +31,9 @@ def run(ctx):
     if r.coverage:
         ctx.check_vacuity(r, "Pipeline")
     ctx.mc("redis", "PipelineObs", "MC_PipelineObs.cfg", workers=4, timeout=300)
+    # anti-vacuity of ParentOnce: a variant in which a failing child completes the parent at once must complete a
+    # split request twice
+    ctx.mc("redis", "Pipeline", "MC_Pipeline_errcompletes.cfg", workers=4, timeout=300, expect_violated=["ParentOnce"], count=False)
     # 2. TLC-chosen reply orders
     num = 250 if ctx.thorough else 30
     g = ctx.tlc("redis", "PipelineGen", "Gen_Pipeline.cfg", mode="sim", workers=1, sim_num=num, sim_depth=300,
